@@ -31,6 +31,8 @@ def run(ctx):
         nrec = {}
         pattern = {}
         length = rng.randint(nkeys, nkeys * 3 + 10) if nkeys < 100 else nkeys + rng.randint(0, 100)
+        if nkeys <= 3 and rng.random() < 0.3:
+            length = rng.choice([30, 60, 150])      # dozens of records in one bucket
         for j in range(length):
             m = rng.choice(modes) if mixed else pure
             k = keys[j] if j < nkeys and rng.random() < 0.8 else rng.choice(keys)
